@@ -17,5 +17,9 @@ def run(prog, rep, tier):
     apply(rep, "F1", "unknown form/attribute/encoding is an error", r_dw.f1(prog), 3)
     apply(rep, "F3", "form/encoding/enumerated-attribute dispatch agrees with DWARF 5", r_dw.f3(prog), 60)
     apply(rep, "E1", "no libdw error result is dropped", r_dw.e1(prog), 50)
+    import r_pure
+    q = r_pure.q1(prog)
+    apply(rep, "Q1", "attribute decoding keeps no process-level cache (no static-storage variable written in the decoders)",
+          ([i for i in q[0] if i[0].startswith(("Q1ii", "Q1iii"))], [f for f in q[1] if f["key"].startswith(("Q1ii", "Q1iii"))]), 2)
     apply(rep, "F6", "scan-summary flags deciding signedness are only ever set inside the scan", r_dw.f6(prog), 2)
     maybe_mutants("C07", rep, tier)
